@@ -247,6 +247,69 @@ def content_of(psi, mu):
     return int(c.real) - 1
 
 
+NO_ACC = {"acc": 0, "cur": 0, "ltcum": [], "lcur": [], "lclosest": []}
+
+
+def accessor_view(sol, dts_by_code):
+    """What the returned Solution's documented accessors report, beyond `times` and the raw per-step arrays:
+    DynamicsData.time, the frame cursor (Solution.solve_step / load_tdgl_data, addressed from the front and
+    from the back), closest_solve_step; the derived per-step accessors (voltage, phase_difference, time_slice,
+    closest_time, mean_voltage) must be the documented projections of the records (else ltcum is unmatchable)."""
+    try:
+        dyn = sol.dynamics
+        t = np.atleast_1d(np.asarray(dyn.time, dtype=float))
+        ltcum = [abstract_time(float(x), dts_by_code) for x in t]
+        dt = np.atleast_1d(np.asarray(dyn.dt, dtype=float))
+        ok = True
+        if len(t):
+            a, b = len(t) // 3, max(len(t) // 3, (2 * len(t)) // 3)
+            ok &= list(dyn.time_slice(t[a], t[b])) == list(range(a, b + 1))
+            ok &= list(dyn.time_slice()) == list(range(len(t)))
+            ok &= all(int(dyn.closest_time(float(x))) == j for j, x in enumerate(t))
+            if len(t) > 1:
+                ok &= int(dyn.closest_time(0.75 * t[0] + 0.25 * t[1])) == 0
+        mu = None if dyn.mu is None else np.asarray(dyn.mu, dtype=float).reshape(-1, len(t))
+        th = None if dyn.theta is None else np.asarray(dyn.theta, dtype=float).reshape(-1, len(t))
+        if mu is not None and mu.shape[0] >= 2 and len(t):
+            r = mu.shape[0] - 1
+            ok &= np.array_equal(np.asarray(dyn.voltage()), mu[0] - mu[1])
+            ok &= np.array_equal(np.asarray(dyn.voltage(r, 0)), mu[r] - mu[0])
+            ok &= np.array_equal(np.asarray(dyn.phase_difference(0, r)), th[0] - th[r])
+            v = mu[0] - mu[1]
+            want = float(np.sum(v * dt) / np.sum(dt))
+            got = float(dyn.mean_voltage())
+            ok &= abs(got - want) <= 1e-12 * max(1.0, abs(want))
+            a, b = len(t) // 4, max(len(t) // 4, len(t) // 2)
+            sl = slice(a, b + 1)
+            want = float(np.sum(v[sl] * dt[sl]) / np.sum(dt[sl]))
+            got = float(dyn.mean_voltage(0, 1, tmin=t[a], tmax=t[b]))
+            ok &= abs(got - want) <= 1e-12 * max(1.0, abs(want))
+        if not ok:
+            ltcum = [BOT]
+        times = np.atleast_1d(sol.times)
+        lclosest = [int(sol.closest_solve_step(float(x))) for x in times]
+        if len(times) > 1 and int(sol.closest_solve_step(0.6 * times[-1] + 0.4 * times[-2])) != len(times) - 1:
+            lclosest = [BOT]
+        lo, hi = int(sol.data_range[0]), int(sol.data_range[1])
+        nfr = hi - lo + 1
+        lcur = []
+        on_disk = bool(sol.saved_on_disk)       # a solution written to a temporary directory has no file to move a cursor in
+        for f in (range(nfr) if on_disk else ()):
+            idx = f if f % 2 == 0 else f - nfr          # addressed from the front and from the back
+            sol.solve_step = idx
+            d = sol.tdgl_data
+            st = d.state
+            if int(sol.solve_step) != f or int(d.step) != f:
+                lcur.append([BOT, BOT, BOT])
+                continue
+            lcur.append([int(st["step"]), abstract_time(float(st["time"]), dts_by_code), content_of(np.asarray(d.psi), np.asarray(d.mu))])
+        if on_disk:
+            sol.solve_step = -1
+        return {"acc": 1, "cur": 1 if on_disk else 0, "ltcum": ltcum, "lcur": lcur, "lclosest": lclosest}
+    except Exception as e:      # noqa: BLE001 - an accessor that raises on a loadable solution is an observation
+        return {"acc": 1, "cur": 1, "ltcum": [BOT], "lcur": [], "lclosest": [], "acc_exc": type(e).__name__ + ": " + str(e)[:200]}
+
+
 def abstract_time(t, dts_by_code):
     """time -> ticks; exact consistency with the sum of step sizes is checked separately
     through the specification (time = sum of ticks); the residual must be a sum of codes."""
@@ -531,6 +594,7 @@ def _replay(tdgl, script, base_tmp=None, sandbox=None, keep=False):
     old_tempdir = tempfile.tempdir
     result, exc_name, sol = "pending", "", None
     ltimes, luids, drange = [], [], []
+    accv = dict(NO_ACC)
     try:
         os.chdir(sandbox)
         tempfile.tempdir = str(tempd)
@@ -592,8 +656,11 @@ def _replay(tdgl, script, base_tmp=None, sandbox=None, keep=False):
                 drange = [int(sol.data_range[0]), int(sol.data_range[1])]
             except Exception as e:
                 result, exc_name = "raised", "on-load " + type(e).__name__ + ": " + str(e)[:200]
+            if result == "solution":
+                accv = accessor_view(sol, dts_by_code)
         ret = {"ev": "return", "result": result, "exc": exc_name, "ltimes": ltimes, "luids": luids,
                "range": drange, "fs": fs_state(sandbox, tempd, cfg["out"], foreign, fmap)}
+        ret.update(accv)
         # independent re-read of the closed output file
         if cfg["out"] == "path":
             closed = [f for f, m in fmap.items() if m.startswith("o") and ret["fs"].get(m) == "closed"]
@@ -649,7 +716,8 @@ def normalise_for_tlc(trace):
             out["ev"].append({"ev": "close", "fs": _fs(e["fs"]), "frames": frames})
         elif e["ev"] == "return":
             out["ev"].append({"ev": "return", "result": e["result"], "ltimes": e["ltimes"], "luids": e["luids"],
-                              "range": e["range"], "fs": _fs(e["fs"])})
+                              "range": e["range"], "fs": _fs(e["fs"]), "acc": e.get("acc", 0), "cur": e.get("cur", 0), "ltcum": e.get("ltcum", []),
+                              "lcur": e.get("lcur", []), "lclosest": e.get("lclosest", [])})
         elif e["ev"] == "reject":
             out["ev"].append({"ev": "reject", "phase": e["phase"], "cls": e["cls"]})
         elif e["ev"] == "fault":
